@@ -50,7 +50,26 @@ def gen(tier, rng):
         s = dict(base)
         s["level_idc"], s["constraint_flags"] = rng.choice([9, 10, 11, 12]), b
         cases.append("sps raw:" + hx(g.enc_sps(s, rng).bytes()))
+    cases += header_conjunctions(rng)
     return cases
+
+
+def header_conjunctions(rng):
+    """every profile byte x constraint flags {00,10,ef,ff} x level bytes 9..13: the level / profile an SPS reports depends on
+    its own byte (and flag 3) only, whatever the other header bytes are"""
+    out = []
+    basec = g.gen_sps(rng, small=True, force={"profile_idc": 100})
+    basec["vui"] = None
+    baseb = g.gen_sps(rng, small=True, force={"profile_idc": 66})
+    baseb["vui"] = None
+    for prof in range(256):
+        for flags in (0x00, 0x10, 0xef, 0xff):
+            for lvl in (9, 10, 11, 12, 13):
+                s = dict(basec if prof in g.CHROMA_PROFILES else baseb)
+                s["profile_idc"], s["constraint_flags"], s["level_idc"] = prof, flags, lvl
+                s["has_chroma"] = prof in g.CHROMA_PROFILES
+                out.append("sps raw:" + hx(g.enc_sps(s, rng).bytes()))
+    return out
 
 
 def field(a, name):
